@@ -201,6 +201,7 @@ func (c *Ctx) evalBuiltin(name string, x *ast.CallExpr, s *State) Value {
 			r := c.fresh("chan", sInt)
 			s.assume(lt("0", r))
 			c.freshRefFacts(s, r)
+			s.assume(eq(sel(c.heapGet(s, "X.closed", sA1), r), "0")) // a new channel is open
 			return IntV{r}
 		}
 	case "new":
@@ -520,7 +521,7 @@ func (c *Ctx) callFuncValue(x *ast.CallExpr, s *State, name string, args []Value
 	}
 	c.abstractNote(x.Pos(), "call through function value "+name)
 	c.havocAll(s)
-	c.frameCallee = append(c.frameCallee, "all")
+	c.frameEffect(s, "all")
 	return c.freshResults(s, x, name)
 }
 
@@ -583,7 +584,7 @@ func (c *Ctx) callFunc(x *ast.CallExpr, s *State, callee *types.Func, recv Value
 		}
 		c.abstractNote(x.Pos(), "call "+key+" (no contract): results and the whole heap havocked")
 		c.havocAll(s)
-		c.frameCallee = append(c.frameCallee, "all")
+		c.frameEffect(s, "all")
 	case noEffectPkgs[pkgName]:
 		c.note("calls into " + pkgName + " without a contract: results arbitrary, tracked state unchanged")
 		c.havocArgs(s, callee, args, sig, pkgName)
@@ -787,6 +788,11 @@ func (c *Ctx) inlineFunc(x *ast.CallExpr, s *State, callee *types.Func, recv Val
 func (c *Ctx) applyContract(x *ast.CallExpr, s *State, k *Contract, sig *types.Signature, callee *types.Func, recv Value, args []Value, key string) Value {
 	c.calleesUsed[key] = true
 	env := c.calleeEnv(k, sig, callee, recv, args, s)
+	if callee == nil {
+		// contract of a function value used inside this function: it may mention the enclosing function's variables
+		env.own = true
+		env.pos = x.Pos()
+	}
 	ord := c.callOrd[x]
 	// preconditions
 	for _, r := range k.Requires {
@@ -800,7 +806,7 @@ func (c *Ctx) applyContract(x *ast.CallExpr, s *State, k *Contract, sig *types.S
 	if !k.Pure {
 		if !k.HasModifies {
 			c.havocAll(s)
-			c.frameCallee = append(c.frameCallee, "all")
+			c.frameEffect(s, "all")
 		} else {
 			c.havocModifies(s, k.Modifies, env)
 			for _, m := range k.Modifies {
@@ -810,11 +816,11 @@ func (c *Ctx) applyContract(x *ast.CallExpr, s *State, k *Contract, sig *types.S
 					switch u := bt.Underlying().(type) {
 					case *types.Slice:
 						if !c.freshRefs[bv.(SliceV).Ref] {
-							c.frameCallee = append(c.frameCallee, memKey(u.Elem()))
+							c.frameEffect(s, memKey(u.Elem()))
 						}
 					case *types.Pointer:
 						if !c.freshRefs[asInt(bv)] {
-							c.frameCallee = append(c.frameCallee, "F."+typeKey(u.Elem())+".*")
+							c.frameEffect(s, "F."+typeKey(u.Elem())+".*")
 						}
 					}
 					continue
@@ -1015,7 +1021,7 @@ func (c *Ctx) specialCall(x *ast.CallExpr, s *State, callee *types.Func, key str
 			run := s.clone()
 			run.assume(first)
 			c.heapSet(run, "X.oncedone", sA1, store(m, once, "1"))
-			c.frameWrites["X.oncedone"] = true
+			c.frameEffect(s, "X.oncedone")
 			c.inlineLit(lit, nil, run, x)
 			skip := s
 			skip.assume(not(first))
@@ -1161,7 +1167,7 @@ func (c *Ctx) protoUnmarshal(x *ast.CallExpr, s *State, args []Value) Value {
 		// dynamic message type unknown: every protobuf message field may change
 		// (arrays holding repeated fields are allocated by the decoder; existing arrays are not written)
 		c.pendingHavoc(s, "F.pb.")
-		c.frameCallee = append(c.frameCallee, "F.pb.*")
+		c.frameEffect(s, "F.pb.*")
 		s.assume(implies(eq(err, "0"), c.pbReqFacts(s)))
 		return IntV{err}
 	}
@@ -1211,7 +1217,7 @@ func (c *Ctx) pendingHavocPB(s *State, target string) {
 	// Sound over-approximation: all protobuf message fields become arbitrary.
 	c.pendingHavoc(s, "F.pb.")
 	if !c.freshRefs[target] {
-		c.frameCallee = append(c.frameCallee, "F.pb.*")
+		c.frameEffect(s, "F.pb.*")
 	}
 }
 
